@@ -89,7 +89,7 @@ mutual
       simp only [WFG, Bool.and_eq_true] at hwf
       simp only [Fits, Bool.and_eq_true, decide_eq_true_eq] at hf
       obtain ⟨⟨hk, hwfs⟩, hct⟩ := hwf
-      obtain ⟨⟨fn, fl⟩, fne⟩ := hf
+      obtain ⟨fn, fl⟩ := hf
       simp only [dep] at hd
       cases fuel with
       | zero => omega
@@ -97,10 +97,10 @@ mutual
         have hm : gs.length % 4294967296 = gs.length := by omega
         have hlen := writeSections_length_ge c
           (outOrd c.dims (anySeqs (·.hasZ) gs) (anySeqs (·.hasM) gs)).1
-          (outOrd c.dims (anySeqs (·.hasZ) gs) (anySeqs (·.hasM) gs)).2 gs hk fne
+          (outOrd c.dims (anySeqs (·.hasZ) gs) (anySeqs (·.hasM) gs)).2 gs hk
         have hg : ¬ ((writeSections c
           (outOrd c.dims (anySeqs (·.hasZ) gs) (anySeqs (·.hasM) gs)).1
-          (outOrd c.dims (anySeqs (·.hasZ) gs) (anySeqs (·.hasM) gs)).2 gs ++ r).length < gs.length * 16) := by
+          (outOrd c.dims (anySeqs (·.hasZ) gs) (anySeqs (·.hasM) gs)).2 gs ++ r).length < gs.length * 9) := by
           simp only [List.length_append]; omega
         have hcc : checkContig gs = .ok () := by
           cases hx : checkContig gs with
